@@ -1,0 +1,94 @@
+//go:build verif
+
+package lossy
+
+// Verification hooks for the macroblock modes of partition 0 at byte level
+// (properties C06 / C04, models Webp.Impl.VP8SyntaxBytes / VP8HeaderBytes).
+// Compiled only with the build tag "verif"; they add no behaviour of their own.
+
+// VerifMBModeIn is what writeMBModes reads of one macroblock.
+type VerifMBModeIn struct {
+	IsI4    bool
+	I16Mode uint8
+	Modes   [16]uint8
+	UVMode  uint8
+	Segment uint8
+	Skip    bool
+}
+
+// VerifModesIn is a frame's worth of modes plus the header fields writeMBModes depends on.
+type VerifModesIn struct {
+	MbW, MbH   int
+	UseSegment bool
+	UpdateMap  bool
+	SegProbs   [MBFeatureTreeProbs]uint8
+	NumSkip    int
+	SkipProba  uint8
+	MBs        []VerifMBModeIn
+}
+
+// VerifEmitModes runs the real emitPartition0 (header of a fresh encoder:
+// ResetProba, one partition, quantiser and filter fields zero; then the real
+// writeMBModes) and returns the bytes of partition 0.
+func VerifEmitModes(in *VerifModesIn) []byte {
+	enc := &VP8Encoder{mbW: in.MbW, mbH: in.MbH}
+	ResetProba(&enc.proba)
+	enc.proba.Segments = in.SegProbs
+	enc.segmentHdr.UseSegment = in.UseSegment
+	enc.segmentHdr.UpdateMap = in.UpdateMap
+	enc.numParts = 1
+	enc.numSkip = in.NumSkip
+	enc.skipProba = in.SkipProba
+	enc.itTopModes = make([]uint8, in.MbW*4)
+	enc.mbInfo = make([]MBEncInfo, in.MbW*in.MbH)
+	for i := range enc.mbInfo {
+		m := &in.MBs[i]
+		info := &enc.mbInfo[i]
+		if m.IsI4 {
+			info.MBType = 1
+		}
+		info.I16Mode = m.I16Mode
+		info.Modes = m.Modes
+		info.UVMode = m.UVMode
+		info.Segment = m.Segment
+		info.Skip = m.Skip
+	}
+	return enc.emitPartition0()
+}
+
+// VerifMBModeOut is what parseIntraModeRow leaves in mbData for one macroblock.
+type VerifMBModeOut struct {
+	IsI4    bool
+	IModes  [16]uint8
+	UVMode  uint8
+	Segment uint8
+	Skip    bool
+}
+
+// VerifParseModes runs the real parseHeaders and then the real
+// parseIntraModeRow for every macroblock row (fresh decoder state: intraT and
+// intraL zero, mbData zero, left context reset after every row as
+// initScanline does) and returns the mode records in raster order.
+func VerifParseModes(payload []byte) (mbs []VerifMBModeOut, mbW, mbH int, errStr string, eof bool) {
+	dec := &Decoder{}
+	if err := dec.parseHeaders(payload); err != nil {
+		return nil, 0, 0, "header", false
+	}
+	mbW, mbH = dec.mbW, dec.mbH
+	dec.intraT = make([]uint8, 4*mbW)
+	dec.mbData = make([]MBData, mbW)
+	for y := 0; y < mbH; y++ {
+		if err := dec.parseIntraModeRow(); err != nil {
+			return mbs, mbW, mbH, "modes", dec.br.EOF()
+		}
+		for x := 0; x < mbW; x++ {
+			b := &dec.mbData[x]
+			mbs = append(mbs, VerifMBModeOut{IsI4: b.IsI4x4, IModes: b.IModes, UVMode: b.UVMode, Segment: b.Segment, Skip: b.Skip})
+		}
+		dec.intraL = [4]uint8{}
+	}
+	return mbs, mbW, mbH, "", dec.br.EOF()
+}
+
+// VerifKBModesProba returns KBModesProba[top][left][i].
+func VerifKBModesProba(top, left, i int) uint8 { return KBModesProba[top][left][i] }
